@@ -325,16 +325,17 @@ class Consumer(object):
         # Create and return a deferred for alerting on errors/stoppage
         start_d = self._start_d = Deferred()
 
-        # Start a new fetch request, possibly just for the starting offset
-        self._fetch_offset = start_offset
-        self._do_fetch()
-
-        # Set up the auto-commit timer, if needed
+        # Set up the auto-commit timer, if needed (before the first fetch: its
+        # reply may be there at once and the processor may stop() us)
         if self.consumer_group and self.auto_commit_every_s:
             self._commit_looper = LoopingCall(self._auto_commit)
             self._commit_looper.clock = self.client.reactor
             self._commit_looper_d = self._commit_looper.start(self.auto_commit_every_s, now=False)
             self._commit_looper_d.addCallbacks(self._commit_timer_stopped, self._commit_timer_failed)
+
+        # Start a new fetch request, possibly just for the starting offset
+        self._fetch_offset = start_offset
+        self._do_fetch()
         return start_d
 
     def shutdown(self):
